@@ -9,9 +9,18 @@ Streams
            object identity and contents logged after every request must never change.
   oracle   generated project trees whose every file writes a sentinel when imported (conftest.py, setup.py,
            sitecustomize.py, usercustomize.py, gi.py / gi package, *.pth, sourceless .pyc, fake extension
-           module, packages) x query and refactoring methods x project options: no sentinel, no `exec`
-           audit event of a project file in host or helper, host sys.path / sys.modules / cwd / os.environ
-           unchanged.
+           module, packages, and files named like every module jedi's own import statements mention that the
+           host cannot resolve - numpydoc/docscrape, colorama, read off the jedi sources under test) whose
+           functions and classes carry numpy / sphinx / epydoc / plain docstrings x query and refactoring
+           methods (a third of them on the value of a call, an attribute of an instance or a documented
+           parameter inside the planted file itself) x project options: no sentinel, no `exec` audit event of
+           a project file in host or helper, host sys.path / sys.modules / cwd / os.environ unchanged.
+  hostimport  one fresh process per case: directories that hold a package named like jedi's lazily imported
+           optional dependency, some on the host's own sys.path, some only on the analysed project's sys
+           path (project root, sys_path=, added_sys_path=), a history of 1-3 docstring-consulting queries:
+           which directory's package the host executed (log) = Model.NoExec.lazyHistory with the path shape
+           the translator read from docstrings._get_numpy_doc_string_cls; the oracle: nothing outside the
+           host's own sys.path is executed, sys.path / cwd / environ unchanged.
 """
 import gc
 import json
@@ -32,8 +41,14 @@ MANIFEST = dict(
          'imported unless its top-level name is in settings.auto_import_modules (python_files_parsed_only); '
          'load_module / get_module_info leave the helper\'s sys.path the object it was, on every exit path '
          '(sys_path_restored*); the package contains no other __import__/exec/eval call site '
-         '(only_import_sites, a table extracted from all of jedi/*.py). Tie: translator + correspondence of '
-         'every import_module call + audit hooks in host and helper + sentinel oracle.',
+         '(only_import_sites, a table extracted from all of jedi/*.py). Host side: the lazy import of the '
+         'optional dependency numpydoc in docstrings._get_numpy_doc_string_cls is resolved against the host\'s '
+         'own sys.path only, over every finder, project sys path and history of look-ups '
+         '(host_import_only_from_host_path, host_import_history_only_host_path, project_dir_not_executed_by_host, '
+         'host_import_at_most_once; witness extended_path_executes_project_witness), and no other place in the '
+         'package writes sys.path or imports a foreign module (only_sys_path_write_sites, '
+         'only_foreign_import_sites). Tie: translator + correspondence of every import_module call and of the '
+         'host-side lazy import in fresh processes + audit hooks in host and helper + sentinel oracle.',
     note='The negative over all code paths of jedi is not a theorem: only the loader funnel is, the rest is '
          'pinned by the extracted table of dynamic-import call sites and observed by audit hooks / sentinels. '
          'The finder (importlib) and the import system itself are parameters.',
@@ -524,6 +539,132 @@ def _worker(case):
         return {'id': case['id'], 'infra': traceback.format_exc()[-2000:] + repr(e)}
 
 
+# ----------------------------------------------------------------- host side lazy imports (stream hostimport)
+
+FAKE_DEP = ("import os as _o\n_f = open(%r, 'a')\n_f.write(%r + '\\t' + __name__ + '\\n')\n_f.close()\n\n\n"
+            "class NumpyDocString:\n    def __init__(self, doc, config=None):\n"
+            "        self._parsed_data = {'Parameters': [], 'Returns': [], 'Yields': []}\n")
+
+
+def run_hostimport_case(case):
+    """fresh process.  Some directories hold a package named like a module jedi imports lazily in the host;
+    some of them are on the host's own sys.path, some only on the analysed project's sys path.  A history of
+    queries that consult docstrings; which directory's package was executed is read off a log."""
+    import random
+    import jedi
+    from jedi.api.environment import Environment
+    rng = random.Random(case['seed'])
+    root = os.path.join(SCRATCH, 'c12h-%d-%s' % (os.getpid(), case['id']))
+    shutil.rmtree(root, ignore_errors=True)
+    os.makedirs(root)
+    log = os.path.join(root, 'executed.log')
+    open(log, 'w').close()
+    out = {'id': case['id']}
+    wanted = set(case['host_names']) | {n.split('.')[0] for n in case['host_names']}
+    events = []
+    active = [True]
+
+    def hook(event, args):
+        # an `import` statement of the host whose module is not yet in sys.modules
+        if active[0] and event == 'import' and args[0] in wanted:
+            events.append(args[0])
+    sys.addaudithook(hook)
+    host_before = list(sys.path)
+    try:
+        proj = os.path.join(root, 'proj')
+        dirs = [proj] + [os.path.join(root, 'd%d' % i) for i in range(3)]
+        for d in dirs:
+            os.makedirs(d)
+        providers = [d for d in dirs if rng.random() < 0.5]
+        if not providers:
+            providers = [dirs[rng.randrange(len(dirs))]]
+        for d in providers:
+            for dotted in case['host_names']:
+                parts = dotted.split('.')
+                for i in range(1, len(parts) + 1):
+                    if i < len(parts) or any(o.startswith(dotted + '.') for o in case['host_names']):
+                        f = os.path.join(d, *parts[:i], '__init__.py')
+                    else:
+                        f = os.path.join(d, *parts[:i]) + '.py'
+                    os.makedirs(os.path.dirname(f), exist_ok=True)
+                    if not os.path.exists(f):
+                        with open(f, 'w') as fh:
+                            fh.write(FAKE_DEP % (log, d))
+        style = ['numpy', 'plain', 'none', 'sphinx'][rng.randrange(4)]
+        lib = module_body(root, 'lib', style).split('\n', 4)[4]     # without the sentinel prologue
+        with open(os.path.join(proj, 'lib.py'), 'w') as f:
+            f.write(lib)
+        main = 'import lib\nres = lib.func_lib(lib.VALUE_lib)\nres\nobj = lib.Cls_lib(res)\nobj.content\n'
+        # the host's own configuration: directories other than the project on its sys.path
+        host_dirs = [d for d in dirs[1:] if rng.random() < 0.5]
+        if rng.random() < 0.5:
+            sys.path[0:0] = host_dirs
+        else:
+            sys.path.extend(host_dirs)
+        host_path = list(sys.path)
+        env = Environment(sys.executable)
+        env_path = [p for p in env.get_sys_path() if p]
+        history = []
+        for k in range(rng.randrange(1, 4)):
+            extra_dirs = [d for d in dirs[1:] if rng.random() < 0.5]
+            oname, okw = [('default', dict()),
+                          ('sys_path', dict(sys_path=extra_dirs + [proj] + env_path)),
+                          ('added', dict(added_sys_path=extra_dirs)),
+                          ('nosmart', dict(smart_sys_path=False, sys_path=env_path + extra_dirs))][rng.randrange(4)]
+            kind = ['result', 'instattr', 'param'][rng.randrange(3)]
+            method = ['infer', 'help', 'complete', 'get_signatures'][rng.randrange(4)]
+            before = host_state()
+            err = None
+            extra = None
+            del events[:]
+            try:
+                project = jedi.Project(proj, **okw)
+                if kind == 'param':
+                    ll = lib.split('\n')
+                    script = jedi.Script(lib, path=os.path.join(proj, 'lib.py'), project=project, environment=env)
+                    pos = (ll.index('    return a') + 1, len('    return a'))
+                else:
+                    script = jedi.Script(main, path=os.path.join(proj, 'main.py'), project=project, environment=env)
+                    pos = (3, 3) if kind == 'result' else (5, 11)
+                extra = [str(p_) for p_ in script._inference_state.get_sys_path()]
+                res = getattr(script, method)(*pos)
+                for r_ in res:
+                    getattr(r_, 'description', None)
+            except Exception as e:
+                err = common.exc_site(e)
+            after = host_state()
+            with open(log) as f:
+                seen = [ln.split('\t')[0] for ln in f.read().splitlines()]
+            history.append({'option': oname, 'extra_dirs': extra_dirs, 'kind': kind, 'method': method, 'err': err,
+                            'project_sys_path': extra, 'looked_up': bool(events),
+                            'executed_so_far': [d for i, d in enumerate(seen) if d not in seen[:i]],
+                            'sys_path_same': after['path'] == before['path'] and after['path_id'] == before['path_id'],
+                            'cwd_env_same': after['cwd'] == before['cwd'] and after['environ'] == before['environ']})
+        env = None
+        tops = sorted({n.split('.')[0] for n in case['host_names']})
+        loaded = {}
+        for t in tops:
+            m = sys.modules.get(t)
+            fn = getattr(m, '__file__', None) if m is not None else None
+            if fn:
+                loaded[t] = [d for d in dirs if os.path.abspath(fn).startswith(d + os.sep)][:1] or [fn]
+        out.update(root=root, dirs=dirs, providers=providers, host_dirs=host_dirs, host_path=host_path,
+                   host_before=host_before, history=history, loaded=loaded, style=style)
+    finally:
+        active[0] = False
+        sys.path[:] = host_before
+        shutil.rmtree(root, ignore_errors=True)
+    return out
+
+
+def _host_worker(case):
+    try:
+        return run_hostimport_case(case)
+    except BaseException as e:
+        import traceback
+        return {'id': case['id'], 'infra': traceback.format_exc()[-2000:] + repr(e)}
+
+
 def found_of(rec):
     """which finder result the recorded call must have had (the finder itself is a parameter)"""
     if rec['loader'] == 'python':
@@ -663,6 +804,7 @@ def run(ctx):
                                      expected='subset of environment sys.path', observed=bad)
     else:
         ctx.notes.append('model did not build: correspondence skipped, oracle only')
+    run_hostimport(ctx, host_names)
     ctx.obligations['assumptions'] = [
         'the finder (functions._find_module / importlib) is a parameter: which finder result a name had is read '
         'off the loader jedi chose; the import system itself is not modelled',
@@ -673,8 +815,88 @@ def run(ctx):
     ]
 
 
+def run_hostimport(ctx, host_names):
+    """stream hostimport: Model.NoExec.lazyHistory against the real host-side import, one fresh process per case"""
+    import multiprocessing as mp
+    if not host_names:
+        ctx.notes.append('C12 hostimport: the host resolves every module jedi imports; nothing to plant')
+        return
+    cases = [{'id': 'h%d' % i, 'seed': '%s-h%d' % (ctx.seed, i), 'host_names': host_names}
+             for i in range(ctx.size(10, 150))]
+    t0 = time.time()
+    with mp.get_context('fork').Pool(min(ctx.size(11, 16), len(cases)), maxtasksperchild=1) as pool:
+        results = pool.map(_host_worker, cases, chunksize=1)
+    ctx.notes.append('C12 hostimport: %d cases in %.1f s' % (len(cases), time.time() - t0))
+    how = ('fresh process; directories d0..d2 and proj under a scratch root, `providers` hold a package named like '
+           'the module jedi imports lazily (it logs its directory when executed); sys.path of the process gets '
+           '`host_dirs`; then the queries of `history` on proj/main.py / proj/lib.py with the given Project '
+           'options; ./check C12 --replay <file>')
+    reqs = []
+    for c, r in zip(cases, results):
+        if 'infra' in r:
+            raise common.InfraError('hostimport case %s: %s' % (c['id'], r['infra']))
+        rel = lambda p_: os.path.relpath(p_, r['root']) if str(p_).startswith(r['root']) else p_  # noqa: E731
+        case_d = {'kind': 'hostimport', 'seed': c['seed'], 'host_names': host_names,
+                  'providers': [rel(d) for d in r['providers']], 'host_dirs': [rel(d) for d in r['host_dirs']],
+                  'history': [{k: ([rel(x) for x in v] if k == 'extra_dirs' else v) for k, v in h.items()
+                               if k in ('option', 'extra_dirs', 'kind', 'method')} for h in r['history']]}
+        executed = r['history'][-1]['executed_so_far']
+        for h in r['history']:
+            if h['err'] is not None:
+                ctx.count('raised', (c['seed'], h['method'], h['kind']), nontrivial=False, bucket='%s@%s' % tuple(h['err']))
+            # the property itself: nothing found only through the analysed project is executed by the host, and
+            # the host's sys.path / cwd / environment are what they were
+            foreign = [rel(d) for d in h['executed_so_far'] if d not in r['host_path']]
+            if foreign:
+                ctx.fail('hostimport', 'the process running jedi executed a package that only the analysed '
+                         'project\'s sys path provides', case_d,
+                         expected='only packages from directories of its own sys.path (%s)'
+                                  % [rel(d) for d in r['host_dirs']],
+                         observed={'executed': foreign, 'after_query': {k: h[k] for k in ('option', 'kind', 'method')}},
+                         how=how)
+                break
+            if not h['sys_path_same'] or not h['cwd_env_same']:
+                ctx.fail('hostimport', 'host sys.path / cwd / environment differ after the query', case_d,
+                         expected='unchanged', observed={k: h[k] for k in ('option', 'kind', 'method', 'sys_path_same',
+                                                                           'cwd_env_same')}, how=how)
+                break
+        ctx.count('hostimport', (tuple(case_d['providers']), tuple(case_d['host_dirs']),
+                                 tuple((h['option'], tuple(h['extra_dirs']), h['kind']) for h in case_d['history'])),
+                  nontrivial=bool(set(r['providers']) & set(r['host_dirs'])) or len(r['history']) > 1,
+                  bucket='lookups=%d/executed=%d/host-provides=%s/project-provides=%s' % (
+                      sum(1 for h in r['history'] if h['looked_up']), len(executed), bool(set(r['providers']) & set(r['host_dirs'])),
+                      bool(set(r['providers']) - set(r['host_dirs']))),
+                  sample={'providers': case_d['providers'], 'host_dirs': case_d['host_dirs'],
+                          'executed': [rel(d) for d in executed]})
+        reqs.append({'op': 'hostimport', 'hostPath': r['host_path'], 'providers': r['providers'],
+                     # one entry per query during which the host's import statement ran with the module not
+                     # yet loaded (afterwards the model ignores further look-ups, as the statement does)
+                     'history': [h['project_sys_path'] or [] for h in r['history'] if h['looked_up']]})
+    if not ctx.model_ok:
+        return
+    answers = common.run_driver_parallel('C12', reqs)
+    for c, r, ans in zip(cases, results, answers):
+        if 'error' in ans:
+            raise common.InfraError('driver error: %r' % ans)
+        executed = r['history'][-1]['executed_so_far']
+        tops = sorted(r['loaded'])
+        loaded = r['loaded'][tops[0]][0] if tops else None
+        if ans['executed'] != executed or (ans['loadedFrom'] != loaded and len(r['loaded']) <= 1):
+            ctx.tie_broken('correspondence:hostimport', short(
+                {'seed': c['seed'], 'model': ans, 'impl': {'executed': executed, 'loadedFrom': loaded},
+                 'providers': r['providers'], 'host_dirs': r['host_dirs']}, 1200))
+
+
 def replay(ctx, payload):
     inp = payload['input']
+    if inp.get('kind') == 'hostimport':
+        r = run_hostimport_case({'id': 'replay', 'seed': inp['seed'], 'host_names': inp['host_names']})
+        for h in r['history']:
+            print(h['option'], h['kind'], h['method'], 'executed so far:', h['executed_so_far'],
+                  'host sys.path same:', h['sys_path_same'])
+        print('host_dirs:', r['host_dirs'], 'providers:', r['providers'])
+        print('expected:', payload.get('expected'), 'observed at record time:', short(payload.get('observed')))
+        return 0
     case = {'id': 'replay', 'seed': inp['seed'], 'n_queries': inp.get('n_queries', 10 ** 6),
             'env_lists_project': inp.get('env_lists_project', False), 'host_names': inp.get('host_names') or ()}
     r = run_project_case(case)
